@@ -54,6 +54,14 @@ LEAVES = [
     # If its expired or already exists in the cache it cannot be updated.
     ("Cache", "nonptr_skip", "_services/browser.py", "_ServiceBrowserBase.async_update_records", ("if", "old_record is not None", 0),
      [P("old_record is not None", "has_old", "bool"), P("record.is_expired(now)", "expired", "bool")], "bool", {}),
+    # D24b repair (D25): async_update_records_complete detaches the pending changes before it fires them
+    # (`pending_handlers = self._pending_handlers; self._pending_handlers = {}; for pending in pending_handlers.items()`), so that a
+    # handler that re-enters the record manager (a browser created inside add_service: purge + nested rounds) neither gets them fired
+    # again nor changes the dict being iterated.  On a tree without the repair the first leaf is the constant `False`, the second `True`.
+    ("Cache", "complete_takes_pending", "_services/browser.py", "_ServiceBrowserBase.async_update_records_complete", ("assign", "pending_handlers", 0),
+     [P("self._pending_handlers", "live_dict", "bool")], "bool", {"absent": False}),
+    ("Cache", "complete_iterates_live", "_services/browser.py", "_ServiceBrowserBase.async_update_records_complete", ("has_call", "self._pending_handlers.items", 1),
+     [], "bool", {}),
     ("Cache", "browser_is_address_type", "_services/browser.py", "_ServiceBrowserBase.async_update_records", ("if", "_ADDRESS_RECORD_TYPES", 0),
      [P("record_type", "record_type")], "bool", {"nat": True}),
 ]
